@@ -900,6 +900,34 @@ def gen_c18_program(seed, start, count):
             src += body
             cases.append(dict(mod=mod, item=f'{head} {decl}', traits=traits.split(', '), shape=('named' if named else 'tuple') + '-unsized', raw=fldn.startswith('r#')))
             continue
+        # the field is itself a reference: `Target` is the reference type, the result points at the field, not at the referent
+        if rng.random() < 0.15:
+            mutable = rng.random() < 0.5
+            both = mutable and rng.random() < 0.7
+            traits = 'Deref, DerefMut' if both else 'Deref'
+            entry = rng.choice(['attr', 'derive'])
+            head = f'#[derive_ex({traits})]' if entry == 'attr' else f'#[derive(Ex)] #[derive_ex({traits})]'
+            fldn = rng.choice(['inner', 'r#ref']) if named else '0'
+            lt, g = rng.choice([("'a", "<'a>"), ("'static", ''), ("'a", "<'a, T: 'a>")])
+            ref = f"&{lt} mut " if mutable else f"&{lt} "
+            pointee = 'T' if 'T' in g else 'u32'
+            fty = ref + pointee
+            decl = (f'pub struct X{g} {{ pub {fldn}: {fty} }}' if named else f'pub struct X{g}(pub {fty});')
+            val = 'Box::leak(Box::new(7u32))'
+            ctor = f'X {{ {fldn}: {val} }}' if named else f'X({val})'
+            want = '&mut u32' if mutable else '&u32'
+            gi = ('<' + ', '.join(x for x in (["'static"] if "'a" in g else []) + (['u32'] if 'T' in g else [])) + '>') if g else ''
+            body = (f'pub mod {mod} {{ use super::*;\n {head} {decl}\n pub fn run() {{ let mut n = 0u32; let mut x: X{gi} = {ctor};\n'
+                    f'  n += 1; if !std::ptr::eq(&*x as *const _ as *const u8, &x.{fldn} as *const _ as *const u8) {{ println!("{mod} FAIL deref does not return the field itself"); }}\n'
+                    f'  n += 1; if std::any::type_name::<<X{gi} as Deref>::Target>() != std::any::type_name::<{want}>() {{ println!("{mod} FAIL Target is {{}}", std::any::type_name::<<X{gi} as Deref>::Target>()); }}\n'
+                    f'  {{ let t: &<X{gi} as Deref>::Target = &*x; same_ty(t, &x.{fldn}); }}\n')
+            if both:
+                body += (f'  n += 1; {{ let p1 = &mut *x as *mut _ as *mut u8; let p2 = &mut x.{fldn} as *mut _ as *mut u8; '
+                         f'if p1 != p2 {{ println!("{mod} FAIL deref_mut does not return the field itself"); }} }}\n')
+            body += f'  println!("{mod} ok {{}}", n); }}\n}}\n'
+            src += body
+            cases.append(dict(mod=mod, item=f'{head} {decl}', traits=traits.split(', '), shape=('named' if named else 'tuple') + '-reference', raw=fldn.startswith('r#')))
+            continue
         generic = rng.random() < 0.4
         ty, init, write, after = rng.choice(targets)
         fld = rng.choice(['inner', 'inner', 'r#type']) if named else '0'
